@@ -9,6 +9,8 @@ import (
 	"os"
 	"sort"
 	"strings"
+	"syscall"
+	"unsafe"
 
 	"github.com/logrange/logrange/api"
 	"github.com/logrange/logrange/pkg/pipe"
@@ -28,6 +30,7 @@ type Cmd struct {
 	Lo   int64    `json:"lo,omitempty"`
 	Hi   int64    `json:"hi,omitempty"`
 	Know []string `json:"know,omitempty"` // observe: the tag lines to look at
+	Lim  *int64   `json:"lim,omitempty"`  // stop: file size limit set just before the shutdown sequence runs (crash injection)
 }
 
 type PartView struct {
@@ -46,11 +49,30 @@ type Ans struct {
 	Events  []int64    `json:"events,omitempty"`
 }
 
+// crashAtFileSize: from now on the first write that would take a file of this process past k bytes ends the process
+// INSIDE that write: the kernel writes the part that fits and raises SIGXFSZ, whose disposition is put back to the
+// default (terminate) behind the Go runtime's back (the runtime would otherwise ignore the signal and the writer
+// would get EFBIG and go on). This is a real crash inside a saver's WriteFile, whichever way the saver is written.
+func crashAtFileSize(k int64) {
+	var dfl [64]byte // struct sigaction, all zero: sa_handler = SIG_DFL, no flags, empty mask
+	syscall.RawSyscall6(syscall.SYS_RT_SIGACTION, uintptr(syscall.SIGXFSZ), uintptr(unsafe.Pointer(&dfl[0])), 0, 8, 0, 0)
+	syscall.Setrlimit(syscall.RLIMIT_CORE, &syscall.Rlimit{Cur: 0, Max: 0})
+	syscall.Setrlimit(syscall.RLIMIT_FSIZE, &syscall.Rlimit{Cur: uint64(k), Max: uint64(k)})
+}
+
 func serveMain(args []string) {
 	dir := args[0]
 	flushMs := 600000
 	if len(args) > 1 {
 		fmt.Sscanf(args[1], "%d", &flushMs)
+	}
+	if len(args) > 2 {
+		// crash injection into the savers that run during Init (the tag index is saved at the end of its Init)
+		var k int64 = -1
+		fmt.Sscanf(args[2], "%d", &k)
+		if k >= 0 {
+			crashAtFileSize(k)
+		}
 	}
 	out := json.NewEncoder(os.Stdout)
 	srv, err := StartServer(ServerOpts{Dir: dir, WriteFlushMs: flushMs})
@@ -138,6 +160,9 @@ func serveMain(args []string) {
 			a.Events = evs
 			out.Encode(a)
 		case "stop":
+			if c.Lim != nil {
+				crashAtFileSize(*c.Lim) // the first saver of the shutdown sequence that writes more than this dies in the write
+			}
 			srv.Stop() // cancel the context, Shutdown() of every component in reverse order - as server.Start does
 			out.Encode(Ans{Ok: true})
 			os.Exit(0)
